@@ -1126,7 +1126,7 @@ def apply_op(ctx, rng, m, op, kind, order2):
         m2, _ = add_tags(ctx, rng, m)
         return m2
     if op == "smoothed":
-        if order2 or kind == "line":
+        if order2 or kind in ("line", "hex"):                 # smoothed hexahedra have non-planar faces
             return None
         m2 = m.smoothed()
         # PITFALL: Laplacian smoothing may fold cells over each other; such a mesh is not a mesh any more (a child
@@ -1177,6 +1177,16 @@ def _directed():
     add("tet2-default", "tet", lambda: skfem.MeshTet2().with_defaults().with_subdomains(half))
     add("hex2-default", "hex", lambda: skfem.MeshHex2().refined(1).with_defaults().with_subdomains(half))
     add("quad-to-tri", "tri", lambda: skfem.MeshQuad1().refined(1).with_defaults().with_subdomains(half).to_meshtri())
+    third = {"third": lambda x: x[0] + x[-1] < 0.7}
+    add("refdom-line", "line", lambda: skfem.MeshLine1.init_refdom().refined(1).with_subdomains(third), 2)
+    add("refdom-tri", "tri", lambda: skfem.MeshTri1.init_refdom().refined(1).with_subdomains(third), 2)
+    add("refdom-quad", "quad", lambda: skfem.MeshQuad1.init_refdom().refined(1).with_subdomains(third), 2)
+    add("refdom-tet", "tet", lambda: skfem.MeshTet1.init_refdom().refined(1).with_subdomains(third), 2)
+    add("refdom-hex", "hex", lambda: skfem.MeshHex1.init_refdom().refined(1).with_subdomains(third))
+    add("hex-to-tet", "tet", lambda: skfem.MeshHex1().refined(1).to_meshtet().with_subdomains(third))
+    add("wedge-to-tet", "tet", lambda: skfem.MeshWedge1().to_meshtet().with_subdomains(third), 2)
+    add("tet2-from-tensor", "tet", lambda: skfem.MeshTet2.from_mesh(skfem.MeshTet1.init_tensor(
+        np.array([0, .25, 1.]), np.array([0, .5, 1.]), np.array([0, .75, 1.]))).with_subdomains(third))
     add("line-k0", "line", lambda: skfem.MeshLine1().refined(1).with_boundaries(ends).with_subdomains(half), 0)
     return cases
 
@@ -1204,8 +1214,9 @@ def docs_case(ctx, k_):
     """Meshes shipped with the documentation (tags from the files), refined once."""
     import skfem
     from ..engine import REPO
-    files = sorted(glob.glob(os.path.join(REPO, G.DOCS_MESHES, "*.msh")) +
-                   glob.glob(os.path.join(REPO, G.DOCS_MESHES, "*.vtk")))
+    root = REPO if os.path.isdir(os.path.join(REPO, G.DOCS_MESHES)) else "/repo"   # data files, not judged code
+    files = sorted(glob.glob(os.path.join(root, G.DOCS_MESHES, "*.msh")) +
+                   glob.glob(os.path.join(root, G.DOCS_MESHES, "*.vtk")))
     if k_ >= len(files):
         return
     f = files[k_]
@@ -1236,9 +1247,9 @@ def docs_case(ctx, k_):
 
 
 FAMILIES = [Family("directed", directed_case, N_DIRECTED, N_DIRECTED, budget={"quick": 60, "thorough": 120})]
-FAMILIES += [Family("uniform-" + kd, uniform_case(kd), quick=q, thorough=th)
-             for kd, q, th in (("line", 200, 8000), ("tri", 320, 12800), ("quad", 240, 9600), ("tet", 160, 6400),
-                               ("hex", 100, 4000))]
-FAMILIES += [Family("second-order", second_order_case, 200, 8000),
-             Family("histories", history_case, 240, 9600),
+FAMILIES += [Family("uniform-" + kd, uniform_case(kd), quick=q, thorough=th, budget={"quick": 60, "thorough": 900})
+             for kd, q, th in (("line", 200, 6000), ("tri", 320, 9600), ("quad", 240, 7200), ("tet", 160, 4800),
+                               ("hex", 100, 3000))]
+FAMILIES += [Family("second-order", second_order_case, 200, 6000, budget={"quick": 60, "thorough": 900}),
+             Family("histories", history_case, 240, 7200, budget={"quick": 60, "thorough": 900}),
              Family("docs-meshes", docs_case, 24, 24, budget={"quick": 60, "thorough": 240})]
